@@ -67,6 +67,7 @@ QUICK_OPTION_SETS = [
     ("uninterpreted_int", ("-order-bounds", "-order-conflicts")),
     ("uninterpreted_uf", ("-pop-uninterpreted",)),
     ("int", ("-push-basic",)),
+    ("uninterpreted_int", ("-push-basic",)),
     ("stack_vars", ("-push-basic", "-empty")),
     ("uninterpreted_uf", ("-at-most", "-pushed-once", "-no-output-before-pop")),
     ("uninterpreted_uf", ("-push-basic",)),
@@ -99,11 +100,14 @@ def _init(opts):
 
 
 def _hard_objects(sfs, params):
-    """The hard constraints as Python objects, bounds and instruction table of a fresh FullEncoding."""
-    from smt_encoding.complete_encoding.synthesis_full_encoding import FullEncoding
-    fe = FullEncoding(copy.deepcopy(sfs), params, 0)
+    """The hard constraints as Python objects (serialised), bounds and instruction table, obtained
+    exactly as BlockOptimizer obtains them (functions_declared() runs before the generators)."""
+    from smt_encoding.block_optimizer import BlockOptimizer
+    from smt_encoding.constraints.function import ExpressionReference
+    bo = BlockOptimizer("objs", copy.deepcopy(sfs), params, 10)
+    fe = bo._full_encoding
     try:
-        hard = [ser_formula(h.formula) for h in fe.generate_hard_constraints()]
+        hard = [ser_formula(h.formula) for h in bo._solver._hard]
         err = None
     except Exception as e:  # noqa  (an add_or of nothing raises AssertionError)
         hard, err = None, "%s: %s" % (type(e).__name__, str(e)[:200])
@@ -112,8 +116,22 @@ def _hard_objects(sfs, params):
         thetas[th] = {"id": ins.id, "lb": fe._bounds.lower_bound_theta_value(th),
                       "ub": fe._bounds.upper_bound_theta_value(th),
                       "subset": ins.instruction_subset.name, "unique": bool(ins.unique_ui)}
-    terms = {k: ser_formula(v) for k, v in fe._stack_var_to_term.items()}
-    return {"hard": hard, "err": err, "thetas": thetas, "terms": terms, "b0": fe.b0, "bs": fe.bs,
+    functors = []
+    for ins in sfs["user_instrs"]:
+        t = fe._stack_var_to_term.get(ins["outpt_sk"][0]) if ins["outpt_sk"] else None
+        functors.append(str(t.func) if type(t) == ExpressionReference else "?")
+    th_of = {ins.id: th for th, ins in fe.theta_to_instr.items()}
+    depgraph = []
+    try:
+        for iid, deps in fe._dependency_graph.items():
+            depgraph.append([th_of[iid], list({th_of[d] for d in deps})])
+    except KeyError as e:
+        depgraph = None
+    from smt_encoding.complete_encoding.synthesis_pre_order import happens_before_direct
+    from smt_encoding.instructions.instruction_bounds_simple import DumbInstructionBounds
+    probe = happens_before_direct(0, fe._term_factory, DumbInstructionBounds(0, 3), 0, 1)
+    return {"hard": hard, "err": err, "thetas": thetas, "functors": functors, "depgraph": depgraph,
+            "b0": fe.b0, "bs": fe.bs, "hb_fix": probe is not None, "terminal": bool(fe._terminal),
             "first": fe._bounds.first_position_sequence, "last": fe._bounds.last_position_sequence}
 
 
@@ -144,48 +162,84 @@ def _theta_term(bo, th):
     return "theta_%d" % th if bo._flags.encode_terms == "uninterpreted_uf" else str(th)
 
 
+class _Z3Session:
+    """One interactive /usr/bin/z3 process (-in): the hard part of the emitted script is sent once,
+    blocking clauses are added incrementally."""
+
+    def __init__(self, tout):
+        self.p = subprocess.Popen([Z3, "-in", "-smt2", "-T:%d" % max(1, int(tout))], stdin=subprocess.PIPE,
+                                  stdout=subprocess.PIPE, stderr=subprocess.STDOUT, text=True, bufsize=1)
+
+    def ask(self, cmds):
+        try:
+            self.p.stdin.write(cmds + '\n(echo "<<END>>")\n')
+            self.p.stdin.flush()
+        except (BrokenPipeError, OSError):
+            return "timeout"
+        out = []
+        while True:
+            line = self.p.stdout.readline()
+            if not line:
+                return "".join(out) + "timeout"
+            if line.strip().strip('"') == "<<END>>":
+                break
+            out.append(line)
+        return "".join(out)
+
+    def close(self):
+        try:
+            self.p.stdin.close()
+        except Exception:  # noqa
+            pass
+        try:
+            self.p.kill()
+        except Exception:  # noqa
+            pass
+        self.p.wait()
+
+
 def _enumerate(bo, smt2_text, cap, tout):
     """All assignments of t_0..t_{b0-1} extendable to a model of the hard constraints (up to cap).
-    Each model is found by /usr/bin/z3 on the emitted file with the soft part removed and blocking
-    clauses appended, and decoded with the tool's reader."""
-    import global_params.paths as paths
+    The commands of the emitted file up to its assert-soft part are sent to /usr/bin/z3 verbatim;
+    after each model the clause (not (and (= t_0 v_0) ...)) is added.  Every model text is decoded
+    with the tool's reader."""
     fe = bo._full_encoding
     inv = {ins.id: th for th, ins in fe.theta_to_instr.items()}
     hard_lines = smt2.strip_soft(smt2_text)
-    models, blocks, status = [], [], "complete"
-    path = os.path.join(paths.smt_encoding_path, "enum_%s.smt2" % uuid.uuid4().hex[:8])
-    t0 = time.time()
-    while True:
-        if len(models) >= cap:
-            status = "cap"
-            break
-        if time.time() - t0 > tout:
-            status = "time"
-            break
-        with open(path, "w") as fh:
-            fh.write("\n".join(hard_lines + blocks + ["(check-sat)", "(get-model)"]) + "\n")
-        out = _run_z3(path)
-        head = out.lstrip().split("\n", 1)[0].strip()
-        if head == "unsat":
-            break
-        if head != "sat":
-            status = "solver:" + out.strip().replace("\n", " ")[:300]
-            break
-        try:
-            ids, avals = _decode_with_tool(bo, out)
-        except Exception as e:  # noqa
-            status = "reader:%s: %s" % (type(e).__name__, str(e)[:200])
-            models.append({"ids": None, "model": out[:20000]})
-            break
-        models.append({"ids": ids, "avals": avals})
-        eqs = ["(= t_%d %s)" % (j, _theta_term(bo, inv[i])) for j, i in enumerate(ids)]
-        if not eqs:
-            break
-        blocks.append("(assert (not (and %s)))" % " ".join(eqs) if len(eqs) > 1 else "(assert (not %s))" % eqs[0])
+    models, status = [], "complete"
+    z = _Z3Session(tout)
     try:
-        os.remove(path)
-    except OSError:
-        pass
+        first = z.ask("\n".join(hard_lines))
+        if first.strip():
+            return [], "solver:" + first.strip().replace("\n", " ")[:300]
+        t0 = time.time()
+        while True:
+            if len(models) >= cap:
+                status = "cap"
+                break
+            if time.time() - t0 > tout:
+                status = "time"
+                break
+            out = z.ask("(check-sat)\n(get-model)")
+            head = out.lstrip().split("\n", 1)[0].strip()
+            if head == "unsat":
+                break
+            if head != "sat":
+                status = ("time" if "timeout" in out else "solver:" + out.strip().replace("\n", " ")[:300])
+                break
+            try:
+                ids, avals = _decode_with_tool(bo, out)
+            except Exception as e:  # noqa
+                status = "reader:%s: %s" % (type(e).__name__, str(e)[:200])
+                models.append({"ids": None, "model": out[:20000]})
+                break
+            models.append({"ids": ids, "avals": avals})
+            eqs = ["(= t_%d %s)" % (j, _theta_term(bo, inv[i])) for j, i in enumerate(ids)]
+            if not eqs:
+                break
+            z.ask("(assert (not (and %s)))" % " ".join(eqs) if len(eqs) > 1 else "(assert (not %s))" % eqs[0])
+    finally:
+        z.close()
     return models, status
 
 
@@ -247,3 +301,738 @@ def _work_block(st, item):
     for name, s in sfs_dict["syrup_contract"].items():
         out.append(_encode_and_solve(st, s, name, cap, tout))
     return out
+
+
+def _work_chunk(_st, chunk):
+    """One fresh worker per chunk: {"opts": cli options, "items": [...]}; the option set is installed
+    in this process only (option state leaks between option sets otherwise)."""
+    st = _init(chunk["opts"])
+    out = []
+    for it in chunk["items"]:
+        t0 = time.time()
+        try:
+            r = _work_block(st, it)
+            out.append({"item": it, "status": "ok", "subs": r, "t": time.time() - t0})
+        except BaseException as e:  # noqa
+            out.append({"item": it, "status": "exc", "error": "%s: %s" % (type(e).__name__, str(e)[:300]),
+                        "t": time.time() - t0})
+    return out
+
+
+# ---------------------------------------------------------------------------------------------
+# inputs
+
+VOCAB = ["PUSH 1", "PUSH 2", "POP", "DUP1", "DUP2", "SWAP1", "SWAP2", "ADD", "SUB", "ISZERO", "MLOAD", "MSTORE",
+         "SLOAD", "SSTORE", "CALLVALUE"]
+TINY_VOCAB = ["PUSH 1", "POP", "DUP1", "SWAP1", "ADD"]              # exhaustive enumeration (stack/arith)
+TINY_MEM_VOCAB = ["DUP1", "SWAP1", "MSTORE", "MLOAD", "POP"]        # exhaustive enumeration (memory)
+
+
+def gen_blocks(rng, n, maxlen):
+    out, seen = [], set()
+    while len(out) < n:
+        k = rng.choice([1, 2, 2, 3, 3, 3] + [4] * 4 + ([5] * 4 if maxlen >= 5 else []))
+        k = min(k, maxlen)
+        b = " ".join(rng.choice(VOCAB) for _ in range(k))
+        if b not in seen:
+            seen.add(b)
+            out.append(b)
+    return out
+
+
+def all_blocks(vocab, maxlen):
+    for k in range(1, maxlen + 1):
+        for t in itertools.product(vocab, repeat=k):
+            yield " ".join(t)
+
+
+def hand_specs():
+    """Hand-built specifications (front-end JSON format) that the front end does not produce from
+    the small vocabulary: slack in init_progr_len, two dependent stores whose operands already sit
+    on the stack, a load between stores, a commutative instruction with equal operands."""
+    def ins(i, op, inp, out, comm=False, sto=False, gas=3):
+        return {"id": i, "opcode": "00", "disasm": op, "inpt_sk": inp, "outpt_sk": out, "push": False, "gas": gas,
+                "commutative": comm, "storage": sto, "size": 1}
+
+    def spec(src, tgt, instrs, b0, bs, sto=(), mem=()):
+        nv = 0
+        for x in src + tgt + [y for i in instrs for y in i["inpt_sk"] + i["outpt_sk"]]:
+            m = sfs2coq.VAR.match(x) if isinstance(x, str) else None
+            if m:
+                nv = max(nv, int(m.group(1)) + 1)
+        return {"init_progr_len": b0, "max_progr_len": b0, "max_sk_sz": bs, "vars": ["s(%d)" % i for i in range(nv)],
+                "src_ws": src, "tgt_ws": tgt, "user_instrs": instrs, "current_cost": sum(i["gas"] for i in instrs),
+                "storage_dependences": [list(p) for p in sto], "memory_dependences": [list(p) for p in mem],
+                "is_revert": False, "rules_applied": False, "rules": [], "original_instrs": "", "min_length": 0}
+    s = ["s(%d)" % i for i in range(8)]
+    out = []
+    # two stores that may alias, operands of the SECOND one on top of the initial stack
+    out.append(("stores-swapped-operands", spec([s[2], s[3], s[0], s[1]], [],
+               [ins("SSTORE_0", "SSTORE", [s[0], s[1]], [], sto=True, gas=5000),
+                ins("SSTORE_1", "SSTORE", [s[2], s[3]], [], sto=True, gas=5000)], 3, 4,
+               sto=[("SSTORE_0", "SSTORE_1")])))
+    # store, load, store on possibly aliasing addresses
+    out.append(("store-load-store", spec([s[0], s[1], s[2]], [s[3]],
+               [ins("MSTORE_0", "MSTORE", [s[0], s[1]], [], sto=True),
+                ins("MLOAD_0", "MLOAD", [s[2]], [s[3]])], 4, 4, mem=[("MSTORE_0", "MLOAD_0")])))
+    out.append(("load-then-store", spec([s[2], s[0], s[1]], [s[3]],
+               [ins("MSTORE_0", "MSTORE", [s[0], s[1]], [], sto=True),
+                ins("MLOAD_0", "MLOAD", [s[2]], [s[3]])], 4, 4, mem=[("MLOAD_0", "MSTORE_0")])))
+    # commutative with equal operands, slack
+    out.append(("comm-equal-operands", spec([s[0]], [s[1]], [ins("ADD_0", "ADD", [s[0], s[0]], [s[1]], comm=True)], 4, 3)))
+    # non-commutative binary, unary chain, slack 2
+    out.append(("sub-iszero", spec([s[0], s[1]], [s[3]],
+               [ins("SUB_0", "SUB", [s[1], s[0]], [s[2]]), ins("ISZERO_0", "ISZERO", [s[2]], [s[3]])], 5, 3)))
+    # value used twice in the target
+    out.append(("dup-target", spec([s[0]], [s[1], s[1], s[0]], [ins("ISZERO_0", "ISZERO", [s[0]], [s[1]])], 4, 4)))
+    # empty specification / identity
+    out.append(("identity", spec([s[0], s[1]], [s[0], s[1]], [], 2, 3)))
+    out.append(("swap-only", spec([s[0], s[1], s[2]], [s[2], s[1], s[0]], [], 3, 4)))
+    out.append(("pop-all", spec([s[0], s[1]], [], [], 3, 2)))
+    return out
+
+
+def load_corpus():
+    p = os.path.join(common.VERIF, "corpus", PID, "blocks.json")
+    if not os.path.exists(p):
+        return []
+    with open(p) as fh:
+        return json.load(fh)
+
+
+# ---------------------------------------------------------------------------------------------
+# Coq stages
+
+CASE_HEADER = ("From Coq Require Import ZArith List String NArith.\n"
+               "From GV Require Import Sym.Spec Val.Realizes Model.Smt2.\n"
+               "Import ListNotations.\nOpen Scope string_scope.\n")
+
+
+def run_case_files(named_bodies, timeout=900):
+    """cases files in a private directory under .work (coq/Cases is shared and wiped by others)."""
+    import concurrent.futures as cf
+    d = os.path.join(common.WORK, "c06_cases_%d_%s" % (os.getpid(), uuid.uuid4().hex[:6]))
+    os.makedirs(d, exist_ok=True)
+    for n, b in named_bodies:
+        with open(os.path.join(d, n + ".v"), "w") as fh:
+            fh.write(b)
+
+    def one(n):
+        rc, out = common.sh("ulimit -s unlimited 2>/dev/null; timeout %d coqc -Q %s GV %s.v" % (timeout, common.COQ, n),
+                            cwd=d, timeout=timeout + 30)
+        return n, (rc == 0, out)
+    res = {}
+    try:
+        with cf.ThreadPoolExecutor(max_workers=common.NCPU) as ex:
+            for n, r in ex.map(one, [n for n, _ in named_bodies]):
+                res[n] = r
+    finally:
+        shutil.rmtree(d, ignore_errors=True)
+    return res
+
+
+def coq_script_wf(texts, per=12):
+    """texts: list of .smt2 texts -> list of verdict strings ('VOk' | 'VUnreadable n' | 'VIllFormed n' |
+    'read-error: ..'), computed by the Coq kernel with Smt2.check_text."""
+    res = [None] * len(texts)
+    files = []
+    for f0 in range(0, len(texts), per):
+        it = smt2.CoqInterner()
+        evs = []
+        for k in range(f0, min(f0 + per, len(texts))):
+            try:
+                evs.append("Eval vm_compute in (%d%%nat, check_text %s)." % (k, it.script(texts[k])))
+            except smt2.Smt2ReadError as e:
+                res[k] = "read-error: %s" % e
+        files.append(("c06wf_%d" % (f0 // per), CASE_HEADER + "\n".join(it.defs) + "\n" + "\n".join(evs) + "\n"))
+    broken = []
+    for name, (ok, out) in sorted(run_case_files(files).items()):
+        if not ok:
+            broken.append((name, out[-800:]))
+            continue
+        for val in c04.parse_evals(out):
+            m = re.match(r"\((\d+), (V\w+(?: \d+)?)\)$", val)
+            if m:
+                res[int(m.group(1))] = m.group(2)
+    return res, broken
+
+
+def ids_for_coq(ids, avals):
+    """Decoded ids -> ids the validator understands: the bare 'PUSH' of -push-basic gets the value
+    of a_j (read from the same model).  Returns (ids', problem or None)."""
+    out = []
+    for j, i in enumerate(ids):
+        if i == "PUSH":
+            v = (avals or {}).get(j, (avals or {}).get(str(j)))
+            m = re.fullmatch(r"\d+", v or "")
+            if not m:
+                return None, "a_%d has no numeral value in the model: %r" % (j, v)
+            out.append("PUSH %x" % int(v))
+        else:
+            out.append(i)
+    return out, None
+
+
+def coq_realizes(groups, per=40):
+    """groups: list of (sfs, [ids, ...]).  Returns list (per group) of lists of verdicts
+    (None = realizes within the bounds, (pos, kind, args) otherwise, or ('format', msg))."""
+    res = [[None] * len(g[1]) for g in groups]
+    files = []
+    for f0 in range(0, len(groups), per):
+        body = [CASE_HEADER]
+        for g in range(f0, min(f0 + per, len(groups))):
+            sfs, seqs = groups[g]
+            try:
+                st, t = sfs2coq.spec_term(sfs)
+            except (sfs2coq.SfsFormatError, KeyError, TypeError, ValueError) as e:
+                for m in range(len(seqs)):
+                    res[g][m] = ("format", "%s: %s" % (type(e).__name__, e))
+                continue
+            body.append("Definition S%d : spec := %s." % (g, st))
+            for m, ids in enumerate(seqs):
+                try:
+                    it = sfs2coq.ids_term(ids, t)
+                except (sfs2coq.SfsFormatError, KeyError, TypeError, ValueError) as e:
+                    res[g][m] = ("format", "%s: %s" % (type(e).__name__, e))
+                    continue
+                res[g][m] = ("pending",)
+                body.append("Eval vm_compute in (%d%%nat, %d%%nat, check_bounded S%d %s %d %d)." %
+                            (g, m, g, it, max(0, int(sfs["init_progr_len"])), max(0, int(sfs["max_sk_sz"]))))
+        files.append(("c06rz_%d" % (f0 // per), "\n".join(body) + "\n"))
+    broken = []
+    for name, (ok, out) in sorted(run_case_files(files).items()):
+        if not ok:
+            broken.append((name, out[-800:]))
+            continue
+        for val in c04.parse_evals(out):
+            m = re.match(r"\((\d+), (\d+), (.*)\)$", val, re.S)
+            if m:
+                res[int(m.group(1))][int(m.group(2))] = sfs2coq.parse_verdict(m.group(3))
+    return res, broken
+
+
+# ---------------------------------------------------------------------------------------------
+# the check
+
+PARTIAL = {
+    "proved_unbounded": [
+        "script_wf_sound / script_wf_complete / wf_script_declared_once / has_sort_unique (Model/Smt2Proofs.v): the "
+        "checker evaluated on every emitted file decides the inductive well-sortedness judgement",
+        "hard_sound stages (Model/EncodingProofs.v), all option sets with o_empty = false, all term encodings, all "
+        "bounds, all assignments: constructors never strengthen (mk_and/or/not/imp/eq), move, initial-stack "
+        "constraints => invariant at 0 (init_inv), NOP / POP / DUPk transition => exec_step succeeds and invariant at j+1",
+    ],
+    "hard_sound_proved_for_option_sets": [],
+    "hard_sound_not_closed": [
+        "SWAPk and uninterpreted (non_comm/comm/store/pop) transitions, final stack (needs injectivity of the term "
+        "assignment from the distinct constraint), decode defined (restrict_t_domain + distinct thetas), stores "
+        "exactly once, order constraints (false for the code as it stands without bounds: C06-F1), the induction over "
+        "positions; every -empty variant",
+    ],
+    "checked_per_instance_only": [
+        "for EVERY option set (incl. the default): syntactic correspondence of Encoding.hard with the Python "
+        "constraint objects + all models of the emitted hard constraints (z3 enumeration, tool's reader) validated by "
+        "the proved validator realizes_bounded -- finite, per instance",
+    ],
+}
+
+
+def option_sets_for(tier, rng):
+    if tier == "quick":
+        return list(QUICK_OPTION_SETS)
+    sets = list(QUICK_OPTION_SETS)
+    flags = [f for f in BOOL_FLAGS if f not in ("-at-most", "-pushed-once", "-no-output-before-pop")]
+    allsets = [(t, tuple(f for f, b in zip(flags, bits) if b)) for t in TERMS
+               for bits in itertools.product([0, 1], repeat=len(flags))]
+    rng.shuffle(allsets)
+    for s in allsets[:10]:
+        if s not in sets:
+            sets.append(s)
+    return sets
+
+
+def key_of(kind, term, flags, **kw):
+    k = {"kind": kind, "term": term, "push_basic": "-push-basic" in flags, "pop_uninterpreted": "-pop-uninterpreted" in flags,
+         "empty": "-empty" in flags, "memory": "l_vars" if "-l-vars" in flags else "direct",
+         "order_bounds": "-order-bounds" not in flags, "order_conflicts": "-order-conflicts" not in flags}
+    k.update(kw)
+    return k
+
+
+def collect(run, sets, blocks, specs, cap, tout, chunk_size=6, timeout=400):
+    """Runs every (option set, block/spec).  Returns list of instance dicts."""
+    chunks = []
+    for term, flags in sets:
+        opts = cli_opts(term, flags)
+        items = [{"kind": "block", "text": b, "cap": cap, "tout": tout} for b in blocks]
+        items += [{"kind": "spec", "sfs": s, "label": lab, "cap": cap, "tout": tout} for lab, s in specs]
+        for c0 in range(0, len(items), chunk_size):
+            chunks.append({"opts": opts, "term": term, "flags": list(flags), "items": items[c0:c0 + chunk_size]})
+    rs = gasol.pmap(_work_chunk, chunks, timeout=timeout, fresh_each=True, mem_gb=6)
+    inst, failures = [], []
+    for ch, (st, val) in zip(chunks, rs):
+        if st != "ok":
+            failures.append({"term": ch["term"], "flags": ch["flags"], "status": st, "detail": str(val)[:300],
+                             "items": [i.get("text", i.get("label")) for i in ch["items"]]})
+            continue
+        for r in val:
+            src = r["item"].get("text", r["item"].get("label"))
+            if r["status"] != "ok":
+                inst.append({"term": ch["term"], "flags": tuple(ch["flags"]), "source": src, "frontend_error": r["error"]})
+                continue
+            for sub in r["subs"]:
+                sub.update({"term": ch["term"], "flags": tuple(ch["flags"]), "source": src, "t": r["t"]})
+                inst.append(sub)
+    return inst, failures
+
+
+def _hist(d, k, n=1):
+    d[k] = d.get(k, 0) + n
+
+
+class _Reporter:
+    """One replay per violation class (key): the first witness is reported, the others are counted."""
+
+    def __init__(self, run, enabled):
+        self.run, self.enabled, self.seen = run, enabled, {}
+
+    def report(self, key, what, replay, found_input=True):
+        if not self.enabled:
+            return
+        k = json.dumps(key, sort_keys=True)
+        if k in self.seen:
+            self.seen[k][2] += 1
+            return
+        self.seen[k] = [key, (what, replay, found_input), 1]
+
+    def flush(self):
+        for key, (what, replay, found), n in self.seen.values():
+            replay = dict(replay)
+            replay["witnesses_of_this_class_in_the_run"] = n
+            self.run.report(key=key, what="%s  [%d witness(es) of this class in the run]" % (what, n), replay=replay,
+                            found_input=found)
+
+
+def analyse(run_, inst, failures, report=True):
+    """Stages 1 and 2 on the collected instances.  Returns a summary dict; reports violations."""
+    run = _Reporter(run_, report)
+    run.log = run_.log
+    cov = {"instances": 0, "frontend_errors": {}, "encode_errors": {}, "smt2_files": 0, "smt2_distinct": 0,
+           "smt2_verdicts": {}, "optima_checked": 0, "models_enumerated": 0, "models_checked": 0,
+           "enum_status": {}, "by_option_set": {}, "by_b0": {}, "step_kinds": {}, "models_per_instance": {},
+           "reader_push_without_value": 0, "rejected": {}}
+    good = []
+    for r in inst:
+        on = opt_name(r["term"], r["flags"])
+        if "frontend_error" in r:
+            _hist(cov["frontend_errors"], on + " | " + r["frontend_error"][:60])
+            continue
+        if "encode_error" in r:
+            _hist(cov["encode_errors"], on + " | " + r["encode_error"][:60])
+            continue
+        good.append(r)
+    cov["instances"] = len(good)
+    # ---- stage 1: script_wf on every emitted file (distinct texts are evaluated once)
+    texts, idx = [], {}
+    for r in good:
+        if r["smt2"] not in idx:
+            idx[r["smt2"]] = len(texts)
+            texts.append(r["smt2"])
+    cov["smt2_files"], cov["smt2_distinct"] = len(good), len(texts)
+    t0 = time.time()
+    verdicts, broken = coq_script_wf(texts, per=12 if len(texts) <= 600 else 30)
+    run.log("script_wf: %d files (%d distinct) in %.0fs" % (len(good), len(texts), time.time() - t0))
+    if broken:
+        run.report(key={"kind": "coq-cases-failed", "stage": "script_wf"}, what="cases file failed: " + broken[0][1][-300:],
+                   replay={"file": broken[0][0], "tail": broken[0][1]}, found_input=False)
+    for r in good:
+        v = verdicts[idx[r["smt2"]]]
+        r["wf"] = v
+        _hist(cov["smt2_verdicts"], str(v).split(" ")[0])
+        if v != "VOk" and report:
+            pos = int(v.split(" ")[1]) if v and v.startswith("V") and " " in v else None
+            cmds = smt2.read_all(r["smt2"]) if not str(v).startswith("read-error") else []
+            bad = smt2.show(cmds[pos])[:300] if pos is not None and pos < len(cmds) else None
+            run.report(key=key_of("smt2-ill-formed", r["term"], r["flags"]),
+                       what="emitted SMT-LIB script is not well formed (%s): %s ; z3 says: %s" %
+                            (v, bad, (r.get("solver_head") or "")[:120].replace("\n", " ")),
+                       replay={"source": r["source"], "sfs": r["sfs"], "opts": cli_opts(r["term"], r["flags"]),
+                               "verdict": v, "first_bad_command": bad, "smt2": r["smt2"],
+                               "cmd": "./check C06 --replay <this file>"})
+    # ---- stage 2: decoded optimum and all enumerated models through realizes_bounded
+    groups, meta = [], []
+    for r in good:
+        seqs, tags = [], []
+        if r.get("outcome") in ("optimal", "non_optimal") and r.get("opt_ids") is not None:
+            seqs.append((r["opt_ids"], r.get("opt_avals")))
+            tags.append("optimum")
+        for m in r.get("models") or []:
+            if m.get("ids") is not None:
+                seqs.append((m["ids"], m.get("avals")))
+                tags.append("model")
+        _hist(cov["enum_status"], (r.get("enum_status") or "none").split(":")[0])
+        _hist(cov.setdefault("outcomes", {}), "%s %s" % (opt_name(r["term"], r["flags"]), r.get("outcome")))
+        cov["models_enumerated"] += len(r.get("models") or [])
+        _hist(cov["models_per_instance"], c04.bucket(len(r.get("models") or []), (0, 1, 2, 5, 10, 20, 50, 100, 200)))
+        _hist(cov["by_option_set"], opt_name(r["term"], r["flags"]))
+        _hist(cov["by_b0"], str(r["sfs"]["init_progr_len"]))
+        conv = []
+        for (ids, avals), tag in zip(seqs, tags):
+            if "PUSH" in ids:
+                cov["reader_push_without_value"] += 1
+                if report:
+                    run.report(key=key_of("reader-push-without-value", r["term"], r["flags"]),
+                               what="the tool's reader returns the id 'PUSH' without the pushed value a_j: %s" % ids,
+                               replay={"source": r["source"], "sfs": r["sfs"], "opts": cli_opts(r["term"], r["flags"]),
+                                       "decoded": ids, "a_values": avals})
+            ids2, prob = ids_for_coq(ids, avals)
+            conv.append((ids2, prob, ids, tag))
+            for i in ids:
+                _hist(cov["step_kinds"], re.sub(r"[_\d].*$", "", i) if i not in ("NOP", "POP", "PUSH") else i)
+        groups.append((r["sfs"], [c[0] if c[0] is not None else [] for c in conv]))
+        meta.append((r, conv))
+        st = r.get("enum_status") or ""
+        if report and st.startswith("reader:"):
+            run.report(key=key_of("reader-failed", r["term"], r["flags"]),
+                       what="the tool's model reader failed on a model of the hard constraints: " + st,
+                       replay={"source": r["source"], "sfs": r["sfs"], "opts": cli_opts(r["term"], r["flags"]),
+                               "model": (r["models"][-1].get("model") if r.get("models") else None)})
+        if report and st.startswith("solver:") and r.get("wf") == "VOk":
+            run.report(key=key_of("solver-rejects-script", r["term"], r["flags"]),
+                       what="z3 rejects a script that script_wf accepts: " + st[:200],
+                       replay={"source": r["source"], "sfs": r["sfs"], "opts": cli_opts(r["term"], r["flags"]),
+                               "smt2": r["smt2"]})
+    t0 = time.time()
+    verd, broken = coq_realizes(groups)
+    run.log("realizes_bounded: %d sequences of %d instances in %.0fs" %
+            (sum(len(g[1]) for g in groups), len(groups), time.time() - t0))
+    if broken:
+        run.report(key={"kind": "coq-cases-failed", "stage": "realizes"}, what="cases file failed: " + broken[0][1][-300:],
+                   replay={"file": broken[0][0], "tail": broken[0][1]}, found_input=False)
+    rejected = []
+    for (r, conv), vs in zip(meta, verd):
+        for (ids2, prob, ids, tag), v in zip(conv, vs):
+            if tag == "optimum":
+                cov["optima_checked"] += 1
+            else:
+                cov["models_checked"] += 1
+            if prob is not None:
+                v = ("format", prob)
+            if v is None:
+                continue
+            if v == ("pending",):
+                v = ("format", "no verdict printed by Coq")
+            kind = v[1] if len(v) == 3 else v[0]
+            _hist(cov["rejected"], "%s %s %s" % (opt_name(r["term"], r["flags"]), tag, kind))
+            rejected.append((r, ids, ids2, tag, v))
+            if report:
+                try:
+                    t = sfs2coq.build_tables(r["sfs"])
+                    expl = sfs2coq.explain(v, ids2, t) if len(v) == 3 else str(v)
+                except Exception:  # noqa
+                    expl = str(v)
+                run.report(key=key_of("optimum-not-realizing" if tag == "optimum" else "model-not-realizing",
+                                      r["term"], r["flags"], err=kind),
+                           what="%s decodes (tool's reader) to %s which does not realize the specification: %s [%s | %s]" %
+                                ("the solver's optimum" if tag == "optimum" else "a model of the hard constraints", ids,
+                                 expl, opt_name(r["term"], r["flags"]), r["source"]),
+                           replay={"source": r["source"], "sfs": r["sfs"], "opts": cli_opts(r["term"], r["flags"]),
+                                   "decoded": ids, "with_push_values": ids2, "verdict": list(v) if v else None,
+                                   "explanation": expl, "smt2": r["smt2"],
+                                   "cmd": "./check C06 --replay <this file>"})
+    cov["rejected_total"] = len(rejected)
+    run.flush()
+    return cov, good, rejected
+
+
+def sanity_across_term_encodings(good):
+    """Report only: for one source and one flag set the set of decoded sequences should not depend
+    on the term encoding (complete enumerations only)."""
+    table = {}
+    for r in good:
+        if r.get("enum_status") != "complete" or "-push-basic" in r["flags"]:
+            continue
+        k = (r["source"], r["name"], tuple(sorted(r["flags"])))
+        table.setdefault(k, {})[r["term"]] = frozenset(tuple(m["ids"]) for m in r["models"] if m.get("ids"))
+    diff, same = [], 0
+    for k, d in table.items():
+        if len(d) < 2:
+            continue
+        if len(set(d.values())) == 1:
+            same += 1
+        else:
+            diff.append({"source": k[0], "flags": list(k[2]), "counts": {t: len(v) for t, v in d.items()}})
+    return {"groups_equal": same, "groups_different": len(diff), "examples": diff[:5]}
+
+
+def probe_generate_pops():
+    """generate_pops reuses one dict for all POP instructions (-pop-uninterpreted): probe the code."""
+    try:
+        r = gasol.pmap(lambda st, x: __import__("sfs_generator.gasol_optimization", fromlist=["x"]).generate_pops(x),
+                       [["s(0)", "s(1)"]], init=lambda: gasol.setup_process(["-solver", "z3"]), timeout=60, procs=1)
+        st, val = r[0]
+        if st != "ok":
+            return {"status": st, "detail": str(val)[:200]}
+        return {"status": "ok", "ids": [p["id"] for p in val], "inputs": [p["inpt_sk"] for p in val]}
+    except Exception as e:  # noqa
+        return {"status": "error", "detail": str(e)[:200]}
+
+
+def check(run):
+    rng = random.Random(run.seed)
+    quick = run.tier == "quick"
+    ok = common.proof_stage(run, "Props/C06.v")
+    if not ok:
+        run.report(key={"kind": "proof-broken", "what": str(getattr(run, "proof_broken", "?"))[:80]},
+                   what="proof stage failed: %s" % (getattr(run, "proof_broken", "?"),),
+                   replay={"theorems": "Props/C06.v", "broken": str(getattr(run, "proof_broken", "?"))[:2000]},
+                   found_input=False)
+    sets = option_sets_for(run.tier, rng)
+    corpus = load_corpus()
+    blocks = []
+    for c in corpus:
+        if c["block"] not in blocks:
+            blocks.append(c["block"])
+    for b in gen_blocks(rng, 7 if quick else 21, 4 if quick else 5):
+        if b not in blocks:
+            blocks.append(b)
+    specs = hand_specs()
+    cap, tout = (60, 15) if quick else (200, 40)
+    t0 = time.time()
+    inst, failures = collect(run, sets, blocks, specs, cap, tout)
+    run.log("collected %d instances from %d option sets x (%d blocks + %d hand-built specs) in %.0fs; %d chunk failures" %
+            (len(inst), len(sets), len(blocks), len(specs), time.time() - t0, len(failures)))
+    if not quick:
+        # exhaustive part: every block of length <= 4 over TINY_VOCAB under the default option set,
+        # every block of length <= 3 over TINY_MEM_VOCAB under four option sets
+        tiny4 = list(all_blocks(TINY_VOCAB, 4))
+        tiny3 = list(all_blocks(TINY_MEM_VOCAB, 3))
+        t0 = time.time()
+        i2, f2 = collect(run, [("uninterpreted_uf", ())], tiny4, [], cap, tout, chunk_size=25)
+        i3, f3 = collect(run, [("uninterpreted_uf", ()), ("int", ("-empty",)), ("uninterpreted_int", ("-l-vars",)),
+                               ("stack_vars", ("-order-bounds", "-order-conflicts"))], tiny3, [], cap, tout, chunk_size=25)
+        run.log("exhaustive part: %d + %d instances in %.0fs" % (len(i2), len(i3), time.time() - t0))
+        inst += i2 + i3
+        failures += f2 + f3
+        run.cov["exhaustive"] = {"default_option_set": {"vocabulary": TINY_VOCAB, "max_len": 4, "blocks": len(tiny4)},
+                                 "four_option_sets": {"vocabulary": TINY_MEM_VOCAB, "max_len": 3, "blocks": len(tiny3)}}
+    for f in failures:
+        run.notes.append("chunk lost (%s): %s %s" % (f["status"], opt_name(f["term"], f["flags"]), f["items"]))
+    if len(failures) > max(3, len(inst) // 50):
+        run.report(key={"kind": "harness-chunks-lost"}, what="%d chunks of work were lost (timeouts/crashes)" % len(failures),
+                   replay={"failures": failures[:10]}, found_input=False)
+    # stage 3 (syntactic correspondence) is evaluated by Coq concurrently with stages 1 and 2
+    import threading
+    t0 = time.time()
+    with_obj = [r for r in inst if r.get("objects") and "smt2" in r]
+    seen_obj, uniq = set(), []
+    for r in with_obj:                       # one evaluation per distinct (options, specification)
+        k = (r["term"], r["flags"], json.dumps(r["sfs"], sort_keys=True))
+        if k not in seen_obj:
+            seen_obj.add(k)
+            uniq.append(r)
+    box = {}
+    th = threading.Thread(target=lambda: box.update(corr=coq_correspondence(uniq)))
+    th.start()
+    cov, good, rejected = analyse(run, inst, failures)
+    run.cov.update({k: v for k, v in cov.items()})
+    th.join()
+    corr = box.get("corr") or [("broken", "correspondence thread failed")] * len(uniq)
+    stat, by_opt = {}, {}
+    for r, (st, detail) in zip(uniq, corr):
+        _hist(stat, st)
+        if st == "agree":
+            _hist(by_opt, opt_name(r["term"], r["flags"]))
+        if st in ("differ", "broken"):
+            run.report(key=key_of("model-differs-from-code", r["term"], r["flags"], status=st),
+                       what="Model/Encoding.v `hard` and FullEncoding.generate_hard_constraints disagree (%s | %s): %s" %
+                            (opt_name(r["term"], r["flags"]), r["source"], str(detail)[:300]),
+                       replay={"correspondence": "Encoding.hard vs smt_encoding FullEncoding.generate_hard_constraints",
+                               "source": r["source"], "sfs": r["sfs"], "opts": cli_opts(r["term"], r["flags"]),
+                               "detail": detail}, found_input=False)
+    run.log("correspondence: %s over %d distinct (option set, specification) in %.0fs" % (stat, len(uniq), time.time() - t0))
+    run.cov["correspondence"] = {"status": stat, "agree_by_option_set": by_opt,
+                                 "hb_fix_variant": sorted({bool(r["objects"].get("hb_fix")) for r in with_obj}),
+                                 "objects_errors": len([r for r in good if r.get("objects_error")])}
+    run.cov["sanity_term_encodings"] = sanity_across_term_encodings(good)
+    run.cov["generate_pops_probe"] = probe_generate_pops()
+    run.cov["evaluations"] = cov["smt2_files"] + cov["optima_checked"] + cov["models_checked"]
+    run.cov["distinct_nontrivial"] = cov["smt2_distinct"] + len({(json.dumps(r["sfs"], sort_keys=True), tuple(m["ids"]))
+                                                                    for r in good for m in (r.get("models") or [])
+                                                                    if m.get("ids")})
+    run.cov["rule"] = ("instances = (option set, specification) with specifications from the front end on corpus blocks, "
+                       "random blocks over a 15-instruction vocabulary (length <= %d) and hand-built specifications; per "
+                       "instance: script_wf on the emitted file (distinct = distinct text), the decoded optimum and every "
+                       "enumerated model (cap %d) through realizes_bounded (distinct = distinct (spec, decoded sequence))"
+                       % (4 if quick else 5, cap))
+    run.cov["option_sets"] = [opt_name(t, f) for t, f in sets]
+    run.cov["partial"] = PARTIAL
+    run.cov["trusted_base"] += [
+        "harness/smt2.py s-expression reader (atoms/lists only; commands recognised in Coq)",
+        "/usr/bin/z3 4.8.12 as the model enumerator (a model it does not return is not examined; every model it "
+        "returns is re-validated by the proved validator realizes_bounded)",
+        "harness/sfs2coq.py (SFS JSON -> Coq spec)",
+        "Val/Realizes.v as the meaning of 'realizes' (C04)",
+    ]
+    for r in good[:3]:
+        run.add_sample({"source": r["source"], "options": opt_name(r["term"], r["flags"]), "b0": r["sfs"]["init_progr_len"],
+                        "wf": r.get("wf"), "outcome": r.get("outcome"), "optimum": r.get("opt_ids"),
+                        "models": len(r.get("models") or []), "enum": r.get("enum_status")})
+    run.cov["distribution"] = {"by_option_set": cov["by_option_set"], "by_init_progr_len": cov["by_b0"],
+                               "step_kinds": cov["step_kinds"], "models_per_instance": cov["models_per_instance"],
+                               "enum_status": cov["enum_status"], "frontend_errors": cov["frontend_errors"],
+                               "encode_errors": cov["encode_errors"]}
+
+
+def replay(run, path):
+    """Re-run one replay file against the implementation; exit code 1 when the failure persists."""
+    with open(path) as fh:
+        rp = json.load(fh)
+    rep = rp.get("replay", {})
+    key = rp.get("key", {})
+    if "opts" not in rep:
+        run.log("replay has no option set (kind %s): nothing to re-run" % key.get("kind"))
+        return 0
+    opts = rep["opts"]
+    term = opts[opts.index("-term-encoding") + 1]
+    flags = tuple(f for f in BOOL_FLAGS if f in opts) + (("-l-vars",) if "l_vars" in opts else ())
+    src = rep.get("source")
+    blocks = [src] if isinstance(src, str) and " " in src or src in VOCAB else []
+    specs = [] if blocks else [("replay", rep["sfs"])]
+    inst, failures = collect(run, [(term, flags)], blocks, specs, 300, 60)
+    cov, good, rejected = analyse(run, inst, failures, report=False)
+    kind = key.get("kind")
+    again = False
+    if kind == "smt2-ill-formed":
+        again = any(r.get("wf") != "VOk" for r in good)
+    elif kind in ("model-not-realizing", "optimum-not-realizing"):
+        again = any((tag == "optimum") == (kind == "optimum-not-realizing") for _r, _i, _i2, tag, _v in rejected)
+    elif kind == "reader-push-without-value":
+        again = cov["reader_push_without_value"] > 0
+    for r, ids, ids2, tag, v in rejected[:5]:
+        run.log("rejected:", tag, ids, v)
+    for r in good:
+        run.log("instance:", r["source"], "wf", r.get("wf"), "outcome", r.get("outcome"), r.get("opt_ids"),
+                "models", len(r.get("models") or []), r.get("enum_status"))
+    run.log("replay of %s: %s" % (kind, "REPRODUCED" if again else "not reproduced"))
+    return 1 if again else 0
+
+
+# ---------------------------------------------------------------------------------------------
+# stage 3: syntactic correspondence of the model Encoding.hard with the Python constraint objects
+
+ENC_HEADER = ("From Coq Require Import ZArith List String NArith.\n"
+              "From GV Require Import Sym.Spec Model.Encoding.\n"
+              "Import ListNotations.\nOpen Scope string_scope.\n")
+
+TERM_COQ = {"int": "EncInt", "stack_vars": "EncStackVars", "uninterpreted_uf": "EncUF", "uninterpreted_int": "EncUFInt"}
+
+
+def options_term(term, flags, hb_fix):
+    b = lambda x: "true" if x else "false"  # noqa
+    return "(mkOpt %s %s %s %s %s %s %s)" % (TERM_COQ[term], b("-empty" in flags), b("-push-basic" in flags),
+                                              b("-pop-uninterpreted" in flags), b("-l-vars" in flags),
+                                              b("-order-conflicts" not in flags), b(hb_fix))
+
+
+def extra_term(sfs, ob):
+    n = len(ob["thetas"])
+    ths = {int(k): v for k, v in ob["thetas"].items()}
+    ids = "[" + "; ".join(sfs2coq.coq_string(i["id"]) for i in sfs["user_instrs"]) + "]"
+    fun = "[" + "; ".join(sfs2coq.coq_string(f) for f in ob["functors"]) + "]"
+    bnd = "[" + "; ".join("(%s, %s)" % (sfs2coq.z(ths[k]["lb"]), sfs2coq.z(ths[k]["ub"])) for k in range(n)) + "]"
+    dg = "[" + "; ".join("(%d, [%s])" % (a, "; ".join(str(x) for x in l)) for a, l in (ob["depgraph"] or [])) + "]"
+    return "(mkExtra %s %s %s %s)" % (ids, fun, bnd, dg)
+
+
+def parse_canon(txt):
+    """Canonical text -> tree (lists for [conn ...] and (f ...), str for atoms)."""
+    toks = re.findall(r"[\[\]()]|[^\s\[\]()]+", txt)
+    stack, top = [], []
+    for t in toks:
+        if t in "[(":
+            stack.append(top)
+            top = [t]
+        elif t in "])":
+            done, top = top, stack.pop()
+            top.append(done)
+        else:
+            top.append(t)
+    return top
+
+
+def normalise(tree):
+    """Order-insensitive where the Python side iterates a set: the and-list of
+    each_function_is_used_at_most_once ([distinct t_k theta] conjuncts)."""
+    if isinstance(tree, str):
+        return tree
+    kids = [normalise(k) for k in tree]
+    if len(kids) > 2 and kids[0] == "[" and kids[1] == "and" and all(
+            isinstance(k, list) and len(k) == 4 and k[1] == "distinct" and isinstance(k[2], str) and k[2].startswith("t_")
+            for k in kids[2:]):
+        kids = kids[:2] + sorted(kids[2:], key=repr)
+    return kids
+
+
+def coq_correspondence(insts, per=10):
+    """insts: instances with 'objects'.  Returns list of (status, detail): 'agree' | 'differ' | 'skipped' | 'broken'."""
+    res = [("skipped", "no objects")] * len(insts)
+    files = []
+    for f0 in range(0, len(insts), per):
+        body = [ENC_HEADER]
+        for k in range(f0, min(f0 + per, len(insts))):
+            r = insts[k]
+            ob = r.get("objects")
+            if not ob:
+                continue
+            if ob.get("terminal"):
+                res[k] = ("skipped", "is_revert specification (-terminal encoding is not modelled)")
+                continue
+            try:
+                st, _t = sfs2coq.spec_term(r["sfs"])
+                body.append("Definition S%d : spec := %s." % (k, st))
+                body.append("Definition X%d : extra := %s." % (k, extra_term(r["sfs"], ob)))
+                body.append("Definition H%d := hard %s S%d X%d." % (k, options_term(r["term"], r["flags"], ob["hb_fix"]), k, k))
+                body.append('Eval vm_compute in (%d%%nat, has_err H%d, String.concat "|" (map show H%d)).' % (k, k, k))
+                res[k] = ("broken", "no output")
+            except (sfs2coq.SfsFormatError, KeyError, TypeError, ValueError) as e:
+                res[k] = ("skipped", "format: %s" % e)
+        files.append(("c06enc_%d" % (f0 // per), "\n".join(body) + "\n"))
+    for name, (ok, out) in sorted(run_case_files(files).items()):
+        if not ok:
+            for k in range(len(insts)):
+                pass
+            run_tail = out[-600:]
+            f0 = int(name.split("_")[1]) * per
+            for k in range(f0, min(f0 + per, len(insts))):
+                if res[k][0] == "broken":
+                    res[k] = ("broken", run_tail)
+            continue
+        for val in c04.parse_evals(out):
+            m = re.match(r'\((\d+), (true|false), "(.*)"\)$', val, re.S)
+            if not m:
+                continue
+            k = int(m.group(1))
+            r = insts[k]
+            ob = r["objects"]
+            model_err = m.group(2) == "true"
+            model = [x.strip() for x in m.group(3).split("|")] if m.group(3) else []
+            if ob["hard"] is None:
+                res[k] = ("agree", "both raise") if model_err else ("differ", "Python raises %s, the model does not" % ob["err"])
+                continue
+            if model_err:
+                res[k] = ("differ", "the model raises, Python does not")
+                continue
+            py = ob["hard"]
+            a = [normalise(parse_canon(x)) for x in model]
+            b = [normalise(parse_canon(x)) for x in py]
+            if "-l-vars" in r["flags"]:
+                a, b = sorted(a, key=repr), sorted(b, key=repr)
+            if a == b:
+                res[k] = ("agree", len(py))
+            else:
+                d = next((i for i in range(min(len(a), len(b))) if a[i] != b[i]), min(len(a), len(b)))
+                res[k] = ("differ", {"index": d, "model_len": len(a), "python_len": len(b),
+                                     "model": model[d] if d < len(model) and "-l-vars" not in r["flags"] else str(a[d:d + 1])[:400],
+                                     "python": py[d] if d < len(py) and "-l-vars" not in r["flags"] else str(b[d:d + 1])[:400]})
+    return res
